@@ -36,7 +36,7 @@ from embit.liquid.transaction import LTransaction, LTransactionInput, LTransacti
 from embit.util import secp256k1 as real_secp
 
 PROP = "C18"
-MODS = ["EmbitModel.Props.C18", "EmbitModel.Props.C18X"]
+MODS = ["EmbitModel.Props.C18", "EmbitModel.Props.C18X", "EmbitModel.Props.C18Y"]
 
 
 # ================================================================ A. transaction codec
@@ -898,7 +898,9 @@ def run(tier, seed):
         "libsecp256k1-zkp (Pedersen commitments, range proofs, surjection proofs) is modelled as arbitrary deterministic functions; "
         "hiding/binding and proof soundness are cryptographic assumptions; everything about the real library is OBSERVED in differential runs",
         "balance is proved relative to the explicit algebraic hypotheses ZkpLaws (commitments form a module over the scalars; the blind-sum "
-        "returns what its documentation specifies)",
+        "returns what its documentation specifies) and, for the stored commitment bytes (Props/C18Y.lean balance_stored), the serialise/parse "
+        "law ZkpSerLaws; the laws are jointly satisfiable (toy instance over (Z/251)^2 with a computing blind-sum) but are NOT shown for "
+        "secp256k1-zkp; input values/factors are the ones stated in the input scopes (embit never opens the utxo commitments in blind/verify)",
         "embit does not validate the prefix bytes of confidential fields (asset/value/nonce): any non-explicit prefix is carried verbatim",
         "LOutputScope.verify() consults asset_proof/value_proof or the blinding factors; the range proof and surjection proof of an output are "
         "checked against the library directly, not through verify()",
